@@ -73,6 +73,7 @@ def main(argv=None):
             with contextlib.redirect_stdout(sink):
                 mod.run(ctx)
         os.chdir(core.VERIF)
+        core.assert_cryocat_origin()
         return core.finish(ctx, keep_work=a.keep)
     except (core.MachineryError, tlc.TLCError) as e:
         os.chdir(core.VERIF)
